@@ -29,6 +29,7 @@ import (
 	"go.dedis.ch/kyber/v3/suites"
 	"go.dedis.ch/onet/v3"
 	"go.dedis.ch/onet/v3/log"
+	"go.dedis.ch/onet/v3/network"
 	"go.dedis.ch/protobuf"
 
 	"verifharness/lib"
@@ -65,6 +66,17 @@ type MsgG struct {
 	B bool
 	D []byte
 }
+
+// MsgN is the argument of the acknowledge-only handler: it returns (nil, nil), so the reply
+// is encoded to zero bytes.
+type MsgN struct {
+	S string
+	I int64
+	B bool
+	D []byte
+}
+
+func wsN(m *MsgN) (network.Message, error) { return nil, nil }
 
 // GetE, GetI, GetD are the arguments of the REST GET handlers.
 type GetE struct{}
@@ -167,7 +179,7 @@ func getD(m *GetD) (*Reply, error) {
 
 func newSvc(c *onet.Context) (onet.Service, error) {
 	s := &svc{ServiceProcessor: onet.NewServiceProcessor(c)}
-	if err := s.RegisterHandlers(wsA, wsB, wsG, s.wsQ); err != nil {
+	if err := s.RegisterHandlers(wsA, wsB, wsG, s.wsQ, wsN); err != nil {
 		return nil, err
 	}
 	if err := s.RegisterStreamingHandler(streamT); err != nil {
@@ -187,7 +199,7 @@ func newSvc(c *onet.Context) (onet.Service, error) {
 
 var resNames = []string{"MsgA", "MsgB", "GetE", "GetI", "GetD"}
 var resSubtree = []bool{false, false, false, true, true}
-var wsNames = []string{"MsgA", "MsgB", "MsgG"}
+var wsNames = []string{"MsgA", "MsgB", "MsgG", "MsgN"}
 
 // ---------------------------------------------------------------- inputs
 
@@ -843,6 +855,9 @@ func wsFails(in *input, r req) bool {
 	if w.Path < 0 || w.Path >= len(wsNames) || w.Garbage != "" {
 		return true
 	}
+	if w.Path == 3 {
+		return false
+	}
 	s := ""
 	if w.S != nil {
 		s = *w.S
@@ -1307,10 +1322,12 @@ func genWS(rng *rand.Rand, mostlyValid bool) *wsReq {
 	x := rng.Intn(100)
 	switch {
 	case x < 4:
-		w.Path = 3 + rng.Intn(2) // not registered
+		w.Path = 4 + rng.Intn(2) // not registered
 	case x < 10:
 		w.Garbage = garbage[rng.Intn(len(garbage))]
 		return w
+	case x < 17:
+		w.Path = 3 // acknowledge only: the reply is empty whatever the request carries
 	}
 	full := rng.Intn(3) > 0
 	if full || rng.Intn(2) == 0 {
@@ -1771,6 +1788,8 @@ func corpus() []interface{} {
 			}},
 			Scripts: [][]int{{0, 1, -1, 2, -1, -1}}},
 		parWitness(),
+		reuseWitness(),
+		ackWitness(),
 		quitRaceWitness(),
 		streamWitness(),
 		// the same history on a single-use client is fine
